@@ -1293,7 +1293,7 @@ CHECKS = {
         props=["C06", "Tie"],
         parts=[engine_part("delivery", 48, 600, 45, claim_c06, ["pull_deadlettered", "nack_deadlettered", "job_effective:DeadLetterSweep"], monitors=("attempts-exceeded",)),
                services_part(("DeadLetterSweep",), False), part_dead_letter_faults, part_fetch_untouched, part_dl_service_race],
-        rule="[+ fetch part: a delivery fetched but not handed out (byte budget, limit) keeps its attempt count] [+ background services part: the dead-letter service's first run = one model sweep step] engine profile delivery with dead-letter policies N in 1..4 and default, topologies from generated topics (no subscriber, several, filtered, ordered, deleted topic, self loop); "
+        rule="[+ dl-service-race: the dead-letter service's first run with a client acknowledging right after its first commit: nothing is forwarded after the acknowledgement] [+ fetch part: a delivery fetched but not handed out (byte budget, limit) keeps its attempt count] [+ background services part: the dead-letter service's first run = one model sweep step] engine profile delivery with dead-letter policies N in 1..4 and default, topologies from generated topics (no subscriber, several, filtered, ordered, deleted topic, self loop); "
              "non-trivial = deliveries dead-lettered by pull / nack / sweep",
         assumptions=BUS_ASSUME),
     "C05": dict(
@@ -1318,7 +1318,7 @@ CHECKS = {
     "C10": dict(
         props=["C10"],
         parts=[part_notify_seq, part_wake_sched, timers_part(TIMERS_C10)],
-        rule="[+ real-time: a waiting pull whose next-attempt timer fired in vain is still woken by the next publish] (1) random register/cancel/wake sequences on the real registry vs the model (channels closed after every call; waiters on a random subset of subscriptions); "
+        rule="[+ writers: a publisher whose context ends right after its COMMIT; a zero-deadline nack of 522 ids spanning subscriptions] [+ real-time: a waiting pull whose next-attempt timer fired in vain is still woken by the next publish] (1) random register/cancel/wake sequences on the real registry vs the model (channels closed after every call; waiters on a random subset of subscriptions); "
              "(2) a real waiting pull (ExecuteClient, MaxWait 30 s) held at its transaction boundaries by the SQL driver gate while each of 8 writer kinds commits "
              "before it starts / between heartbeat and query / after the query but before it blocks / after it blocked; it must return the message within 2 s; "
              "non-trivial = distinct (writer, placement) pairs",
@@ -1343,7 +1343,7 @@ CHECKS = {
     "C16": dict(
         props=["C16", "Tie"],
         parts=[part_c16, engine_part("general", 48, 600, 45, claim_c16, ["publish_ok"])],
-        rule="boundary-domain requests (names valid/wrong kind/empty/unknown/deleted, int32 min,-1,0,1,1000,max, durations absent/negative/zero/huge/invalid, nested messages absent/empty, "
+        rule="[+ call deadlines of 1..900 ms on waiting pulls and acknowledgements; 120 idle StreamingPull streams open on one connection while ordinary requests are answered] boundary-domain requests (names valid/wrong kind/empty/unknown/deleted, int32 min,-1,0,1,1000,max, durations absent/negative/zero/huge/invalid, nested messages absent/empty, "
              "ack ids live/stale/foreign/garbage/unknown/mixed/duplicate, masks known/unknown/repeated/empty, payloads JSON/non-JSON/empty) on every implemented RPC against a child-process server; "
              "one factor at a time plus all pairs of the numeric/nested CreateSubscription factors; outcome PANIC = process exit; error answers must leave the dump unchanged",
         trusted=["panics originating in libraries for inputs outside the enumerated domains are not covered"],
@@ -1353,7 +1353,7 @@ CHECKS = {
         parts=[part_c15_meta, services_part(PRUNE_JOBS, False), part_services_fault, timers_part(TIMERS_C15), engine_part("prune", 48, 600, 45, claim_c15,
                                           ["job_effective:PruneCompletedDeliveries", "job_effective:PruneExpiredDeliveries", "job_effective:PruneCompletedMessages",
                                            "job_effective:PruneDeletedSubDeliveries", "job_effective:PruneDeletedSubs", "job_effective:PruneDeletedTopics"])],
-        rule="(1) metamorphic pairs on the real code: the same generated client history (publish / pull / ack / nack / modack / purge-seek / snapshots / deletes / expiry and dead-letter sweeps / "
+        rule="[+ service-faults part: the prune service's second run under faults, a writer probed after a failed run, and a service that never runs again after a partial batch (judged after its full interval)] (1) metamorphic pairs on the real code: the same generated client history (publish / pull / ack / nack / modack / purge-seek / snapshots / deletes / expiry and dead-letter sweeps / "
              "clock jumps to deadline -/+ margin / get / list) is run on two fresh databases, once alone and once with the six prune jobs spliced in before random client steps (up to 3 per position, "
              "ages 0 / 1 s / 30 s / 1 h, batch 1 / 2 / 3 / 100); responses are compared step by step under the identity mapping of messages and deliveries, as are the outstanding backlog and the live names "
              "after every step, then both runs are drained twice; (2) run B is written as Coq cases: every step against the model and the executable monitor View.check_prune_steps (proved quiet on the model) "
@@ -1380,7 +1380,7 @@ CHECKS = {
     "C19": dict(
         props=["C19pure", "C19"],
         parts=[part_push_conn, part_push_e2e, services_part((), True)],
-        rule="(1) the push connection (verif hook) against a scripted HTTP endpoint, one batch at a time: batches of 1..10 pushes ending in a fast success, a slow (>= 1 s) success, a non-success final "
+        rule="[+ the push endpoint carries a query token and userinfo, checked on every POST; success answers with truncated bodies are successes] (1) the push connection (verif hook) against a scripted HTTP endpoint, one batch at a time: batches of 1..10 pushes ending in a fast success, a slow (>= 1 s) success, a non-success final "
              "status (quick: 35 codes; thorough: every code 200..599) or a transport error (connection reset); every Receive() is compared with Push.v (ack vs nack list, window after, FlowControl message), "
              "one sequence drives the window to its cap of 1000; every request body is decoded and compared with the message (base64 against Base64.encode evaluated in Coq, attributes, message id, "
              "ordering key, publish time, subscription, delivery attempt); (2) the production streamer (NewHttpPusher + MessageStreamer) on a real database: scenarios mixed / ordered / all-success / slow, "
@@ -1396,7 +1396,7 @@ CHECKS = {
                stream_part(STREAM_C03), part_adapter, part_ack_faults,
                engine_part(("bulk520", "bulk1100"), 1, 1, 30, claim_c03, ["ack_effective"])],
         parallel=True,
-        rule="[+ stream part: ids acknowledged on a stream / outside it / on a second stream of a reconnecting client are completed in the database; bulk profile: Acknowledge calls with exactly 500 / 499 / the remaining ids of 520 (thorough 1100) leased deliveries] same engine; owned projection: Acknowledge / ModifyAckDeadline / stream ack+nack steps (duplicate, stale, foreign, garbage ids; nack and deadline changes after ack); "
+        rule="[+ ack-under-fault: with a storage fault at every statement position and at COMMIT an acknowledgement answered OK is durable] [+ stream part: ids acknowledged on a stream / outside it / on a second stream of a reconnecting client are completed in the database; bulk profile: Acknowledge calls with exactly 500 / 499 / the remaining ids of 520 (thorough 1100) leased deliveries] same engine; owned projection: Acknowledge / ModifyAckDeadline / stream ack+nack steps (duplicate, stale, foreign, garbage ids; nack and deadline changes after ack); "
              "non-trivial = acks that completed something, no-op acks, effective deadline changes, nacks",
         assumptions=BUS_ASSUME),
     "C12": dict(
